@@ -214,6 +214,14 @@ func (mgr *GCMgr) gc(bkt *Bucket, startChunkID, endChunkID int, merge bool) {
 	var rec *Record
 	var r *DataStreamReader
 
+	// The flush that follows a data-file rotation runs asynchronously and may not
+	// have run yet (it queues behind the periodic flusher): the newest records of
+	// the previous file are then still only in its write buffer although the file
+	// can already be part of the range. Reading such a file from disk would miss
+	// them, and clearing or rewriting it under its buffered records ends in "wrong
+	// data file size" when the late flush finally runs.
+	bkt.datas.flushOldChunks()
+
 	mgr.BeforeBucket(bkt, startChunkID, endChunkID, merge)
 	defer mgr.AfterBucket(bkt)
 
